@@ -192,6 +192,18 @@ def kw(e: Event, name: str, pos: Optional[int] = None) -> Optional[Term]:
     return None
 
 
+def alloc_literal(path: Path, symt: Optional[Term]) -> Optional[Term]:
+    """Literal content a fresh list/dict/set symbol was created with on this path."""
+    if symt is None:
+        return None
+    for e in path.walk_events(True):
+        if e.kind == "note" and e.data.get("what") == "alloc" and e.data.get("sym") == symt:
+            return e.data["literal"]
+    if symt[0] in ("list", "dict", "set", "tuple"):
+        return symt
+    return None
+
+
 def is_normal(p: Path) -> bool:
     return p.exit[0] != "raise"
 
